@@ -32,8 +32,9 @@ def _load_ok(pr):
     return ""
 
 
-def _second_run_checks(pr, be, jobs1, n_cmds_before):
-    """jobs1: jobs the scheduler accepted in the interrupted run (all still pending)."""
+def _second_run_checks(pr, be, jobs1, n_cmds_before, done=()):
+    """jobs1: jobs the scheduler accepted in the interrupted run (all still pending, except those named in `done`,
+    which finished successfully in the meantime)."""
     w = pr.w
     try:
         w.run()
@@ -54,7 +55,7 @@ def _second_run_checks(pr, be, jobs1, n_cmds_before):
     latest = dict(accepted)
     for j in jobs2:
         i = pr.idx(j["name"])
-        req = sorted(str(latest[pr.names[d]]) for d in pr.deps[i])
+        req = sorted(str(latest[pr.names[d]]) for d in pr.deps[i] if pr.names[d] not in done)
         if sorted(map(str, j["deps"])) != req:
             return "%s submitted with prerequisites %s, expected the accepted jobs %s" % (j["name"], j["deps"], req)
         latest[j["name"]] = j["id"]
@@ -156,7 +157,20 @@ def _q9a(k, kind):
                 return "a job id is recorded for %s although the scheduler accepted nothing for it: %r" % (nm, tracked[nm])
         if failed is None:
             return "command %d failed (%s) but the run reported success" % (kk, FAULT_KINDS[kind])
-        return _second_run_checks(pr, be, jobs1, len(prior_jobs))
+        done = ()
+        if sh.get("progress") and len(jobs1) >= 2:
+            # the scheduler makes progress before the next invocation: the first accepted job finishes (output written, job gone
+            # from the live queue); the others are still queued - on Slurm after a requeue, so that accounting still holds the
+            # terminal row of their first attempt
+            first = jobs1[0]
+            for o in pr.outputs[pr.idx(first["name"])]:
+                w.file(o, 50, "made by " + first["name"])
+            abst.set_state(w, first["id"], "done")
+            done = (first["name"],)
+            if be == "slurm":
+                for j in jobs1[1:]:
+                    w.sim.acct_lag[str(j["id"])] = "NODE_FAIL"
+        return _second_run_checks(pr, be, jobs1, len(prior_jobs), done)
     finally:
         w.uninstall()
 
@@ -271,10 +285,12 @@ def w9b(k: int, hashing: bool) -> str:
 QUERIES = [
     {"name": "Q9a", "fn": q9a, "setup": setup_q9a,
      "shards": {"quick": [{"be": "slurm", "shape": "chain2"}, {"be": "slurm", "shape": "fork3"}, {"be": "lsf", "shape": "chain2"}, {"be": "local", "shape": "chain2"},
-                          {"be": "slurm", "shape": "chain3", "prior": True}, {"be": "sge", "shape": "chain2", "prior": True}],
-                "thorough": [{"be": b, "shape": s, "prior": p} for b in ("slurm", "sge", "lsf", "local") for s in ("chain2", "fork3", "chain3") for p in (False, True)]},
+                          {"be": "slurm", "shape": "chain3", "prior": True}, {"be": "sge", "shape": "chain2", "prior": True},
+                          {"be": "slurm", "shape": "fork3", "progress": True}, {"be": "slurm", "shape": "chain3", "progress": True}],
+                "thorough": [{"be": b, "shape": s, "prior": p} for b in ("slurm", "sge", "lsf", "local") for s in ("chain2", "fork3", "chain3") for p in (False, True)]
+                            + [{"be": b, "shape": s, "progress": True} for b in ("slurm", "sge", "lsf") for s in ("fork3", "chain3")]},
      "timeout": {"quick": 900, "thorough": 1800},
-     "bound": "(optionally after an earlier complete run whose jobs then failed / were cancelled) fault at the k-th scheduler command of the run (k symbolic from 1 to the number of commands an uninterrupted run issues, measured at start-up: state queries and submissions), 3 fault kinds; then a fault-free run; chain of 2, fork of 3 (quick); + chain of 3, all backends (thorough); spec hashing on"},
+     "bound": "(optionally after an earlier complete run whose jobs then failed / were cancelled) fault at the k-th scheduler command of the run (k symbolic from 1 to the number of commands an uninterrupted run issues, measured at start-up: state queries and submissions), 3 fault kinds; then (in the progress shards: after the first accepted job finished while the others are still queued, Slurm accounting lagging behind a requeue) a fault-free run; chain of 2, fork of 3 (quick); + chain of 3, all backends (thorough); spec hashing on"},
     {"name": "W9b", "fn": w9b, "setup": setup_q9b, "shards": [], "timeout": 60, "bound": "witness of the known finding C09-hard-kill-loses-ids (concrete)"},
     {"name": "Q9b", "fn": q9b, "setup": setup_q9b,
      "shards": {"quick": [{"be": "slurm", "shape": "chain2"}, {"be": "slurm", "shape": "chain2", "prior": True}, {"be": "sge", "shape": "chain2"}, {"be": "lsf", "shape": "chain2", "prior": True}],
